@@ -51,8 +51,11 @@ func stubHash(mt string, inline bool, in string) string {
 // and contains characters that need care in the context the result is inserted in.
 func stubOutput(mt string, inline bool, in string, ampersand bool) string {
 	h := stubHash(mt, inline, in)
-	if h[7] == '0' && mt != "image/svg+xml" && mt != "application/mathml+xml" {
-		return "" // exercise the "minified to nothing" paths
+	if in == "" {
+		return "" // like every real minifier
+	}
+	if h[7] == '0' && inline && mt != "image/svg+xml" {
+		return "" // exercise the "attribute minified to nothing" path
 	}
 	amp := ""
 	if ampersand {
